@@ -10,8 +10,10 @@ fallback arm of `Mahotas.C10.handle` consults.
          (index against the `N2` cells of `n_data`), the read `neighbours[currank]`; `cnt` = the final `n`,
          `nthok` = `0 ≤ currank ≤ n` (a valid `nth_element` range), `fresh` = `currank < n` (the value read was stored
          for THIS pixel); `rank` outside `[0, N2)`: the kernel returns before any access (`n=0`).
+  kind=daubcode code=<int>   -> `ok= n= term=1 sum= null=`: the reads `coeffs[j]`, `j < 2*(code+1)`, against the table `dcoeffs(code)` selects
 -/
 import Mahotas.Model.Basic
+import Mahotas.Generated.Tables
 namespace Mahotas.C10Conv
 open Mahotas
 
@@ -53,6 +55,16 @@ def rankPixelAccesses (n2 rank : Int) (isConst : Bool) (retr : List Bool) : List
     set cell raises), `ignore` divides by the number `n` of retrieved neighbours when `n > 0` -/
 def meanDivisor (n2 n : Int) (isIgnore : Bool) : Int := if isIgnore then n else n2
 
+
+/-- `py_daubechies` / `py_idaubechies`: `coeffs = dcoeffs(code); ncoeffs = 2*(code + 1); if (!coeffs) return NULL;` then the kernels read
+    `coeffs[j]`, `j < ncoeffs`. `dcoeffs` is a `switch` over `0 … 9` returning the table `D2 … D20` (`Generated.dcoeffs`, extracted from
+    the source), `NULL` otherwise: the reads `coeffs[j]` against the length of the selected table; `none` = the entry point returns -/
+def daubCoeffReads (code : Int) : Option (List CAcc) :=
+  if 0 ≤ code ∧ code < Int.ofNat Generated.dcoeffs.length then
+    let tab := Generated.dcoeffs.getD code.toNat []
+    some ((List.range (2 * (code + 1)).toNat).map fun j => CAcc.mk (Int.ofNat j) (Int.ofNat tab.length))
+  else none
+
 def sI (l : List Int) : Int := l.foldl (· + ·) 0
 def b2s (b : Bool) : String := if b then "1" else "0"
 
@@ -69,6 +81,10 @@ def handleConv (a : Args) : Option String :=
     some (s!"ok={b2s (allOk acc)} n={acc.length} term=1 sum={sI (acc.map (·.i))} cnt={if run then s.2 else 0} " ++
           s!"currank={if run then cr else 0} nthok={b2s (!run || (decide (0 ≤ cr) && decide (cr ≤ s.2)))} " ++
           s!"fresh={b2s (run && decide (cr < s.2))}")
+  | "daubcode" =>
+    match daubCoeffReads (a.int "code") with
+    | some l => some s!"ok={b2s (allOk l)} n={l.length} term=1 sum={sI (l.map (·.i))} null=0"
+    | none => some "ok=1 n=0 term=1 sum=0 null=1"
   | _ => none
 
 end Mahotas.C10Conv
